@@ -1,4 +1,5 @@
 import OW.Proofs.SimBridge
+import OW.Proofs.SimFootprint
 /-!
 C07 — ow-sim executes a model graph exactly like the sequential reference semantics.
 
@@ -83,9 +84,9 @@ input 0 of B0), fan-out (A0 feeds B0 and B1), a chain A→B→A. -/
 def g3 : Graph α :=
   { T := 2
     models := [
-      { name := "A", nInputs := 1, batches := [2, 2, 3], params := [[], [], []], states := [[], [], []],
+      { name := "A", nInputs := 1, nOutputs := 1, batches := [2, 2, 3], params := [[], [], []], states := [[], [], []],
         inputs := some [[[Num.one, Num.one]], [[Num.zero, Num.one]], [[Num.zero, Num.zero]]] },
-      { name := "B", nInputs := 2, batches := [0, 1, 2], params := [[], []], states := [[], []], inputs := none } ]
+      { name := "B", nInputs := 2, nOutputs := 1, batches := [0, 1, 2], params := [[], []], states := [[], []], inputs := none } ]
     links := [
       ⟨0, 0, 0, 0, 0, 1, 1, 0, 0, 0⟩, ⟨0, 0, 1, 1, 0, 1, 1, 0, 0, 0⟩, ⟨0, 0, 0, 0, 0, 2, 1, 1, 0, 1⟩,
       ⟨1, 1, 0, 0, 0, 2, 0, 2, 0, 0⟩ ] }
@@ -99,6 +100,53 @@ example (run : RunFn α) : owsim run g3 = refSem run g3 := owsim_eq_ref run g3 g
 link, the cursor stops at the generation-1 link in iteration 0 (`linkGen > i → break`): the graph is not valid. -/
 example : ¬ ValidGraph ({ (g3 : Graph α) with links := [⟨1, 1, 0, 0, 0, 2, 0, 2, 0, 0⟩, ⟨0, 0, 0, 0, 0, 1, 1, 0, 0, 0⟩] }) :=
   of_decide_eq_false rfl
+
+/-- non-vacuity of the hypotheses added to `ValidGraph` because the Go code needs them (the list-based model would
+silently read `[]` where Go panics or races): two models with ONE name (Go keys `models` by name: two goroutines on one
+`*modelGeneration`), a link whose `srcVar` is not an output variable of its source model (Go: index out of range in
+`Outputs.Slice`), a `parameters` dataset with a column missing — each makes the graph invalid. -/
+example : ¬ ValidGraph ({ (g3 : Graph α) with models := (g3 : Graph α).models.map fun md => { md with name := "A" } }) :=
+  of_decide_eq_false rfl
+example : ¬ ValidGraph ({ (g3 : Graph α) with links := [⟨0, 0, 0, 0, 7, 1, 1, 0, 0, 0⟩] }) := of_decide_eq_false rfl
+example : ¬ ValidGraph ({ (g3 : Graph α) with models := (g3 : Graph α).models.map fun md => { md with params := [[]] } }) :=
+  of_decide_eq_false rfl
+
+/-- what `ValidGraph` gives beyond batches and link order: pairwise different model names, every link's source variable
+below the number of outputs of its source model, every dataset of the prescribed shape -/
+theorem validGraph_go_preconditions (g : Graph α) (hv : ValidGraph g) :
+    (g.models.map (·.name)).Nodup ∧ (∀ l ∈ g.links, l.srcVar < (g.model l.srcModel).nOutputs) ∧
+    (∀ md ∈ g.models, md.params.length = totalOf md.batches ∧ md.states.length = totalOf md.batches) :=
+  ⟨hv.names, fun _ hl => hv.srcVar hl, fun _ hm => ⟨(hv.shape hm).1, (hv.shape hm).2.1⟩⟩
+
+/-! ### T1, atomicity of `write g`: footprints of the main loop on the generation objects
+
+`write g` is ONE action of the model although the real writer goroutine runs concurrently with the main loop. By
+`writer_no_conflict` (below) the main loop is, while generation `g` is being written, at `run i` with `i > g` or at
+`links i` with `i ≥ g`; the two theorems say that neither touches the generation objects `gens · g` the writer reads. -/
+
+/-- **footprint of `run i`**: every generation object of another generation is untouched -/
+theorem run_footprint (run : RunFn α) (g : Graph α) (i : Nat) (s : SimState α) (m k : Nat) (hk : k ≠ i) :
+    (exec run g s (.run i)).gens m k = s.gens m k :=
+  OW.Sim.run_footprint run g i s m k hk
+
+/-- **footprint of `links i`** in every state a protocol-respecting schedule reaches (`SInv`) and in which the protocol
+admits `links i`: the generation objects of all generations `≤ i` are untouched (the loop adds to inputs of generations
+`> i` only; generation `i` is cached, so `GetGeneration` does not reload it). -/
+theorem links_footprint (run : RunFn α) (g : Graph α) (hv : ValidGraph g) {p p' : Prog} {s : SimState α} {i : Nat}
+    (h : SInv run g p s) (hs : progStep g.genCount p (.links i) = some p') (m k : Nat) (hk : k ≤ i) :
+    (exec run g s (.links i)).gens m k = s.gens m k :=
+  links_footprint_reachable run hv h hs m k hk
+
+/-- non-vacuity: the initial state is such a state (`SInv`), and on the 3-generation graph the first action `run 0`
+leaves generation 1 alone -/
+example (run : RunFn α) : SInv run (g3 : Graph α) Prog.init initState := sinv_init run g3
+example (run : RunFn α) : (exec run (g3 : Graph α) initState (.run 0)).gens 1 1 = none := rfl
+
+/-- **`WriteData` of a generation that never ran** (possible only outside the protocol): Go dereferences the nil
+`Outputs`; the model reports the panic class in the rows concerned instead of skipping the write silently. -/
+example (run : RunFn α) :
+    (execAll run (g3 : Graph α) [Act.write 0]).file 0 0 = some crashRow ∧
+    (crashRow : Row α).err = some "nil" := ⟨rfl, rfl⟩
 
 /-! ## T2 — writer protocol, for every number of generations `G ≥ 1` and every reachable state -/
 
